@@ -24,6 +24,12 @@ M = [
     ("C15", "seeded C02-m2: next member only probed when input is left", "break", "util/compress.cc",
      "          ReplaceThis(ReadFactory(file_.release(), ReadCount(thunk), back_.NextInput(), back_.AvailInput(), true), thunk);",
      "          if (back_.AvailInput()) {\n            ReplaceThis(ReadFactory(file_.release(), ReadCount(thunk), back_.NextInput(), back_.AvailInput(), true), thunk);\n          } else {\n            ReplaceThis(new Complete(), thunk);\n          }"),
+    ("C15", "seeded C15-m3: write() drains a 'full' buffer with buf_size_", "break", "util/compress.cc",
+     "      while (compressor_.AvailInput()) {\n        if (!compressor_.EnoughOutput()) {\n          writer_.write(buf_.get(), compressor_.NextOutput() - reinterpret_cast<const uint8_t*>(buf_.get()));",
+     "      while (compressor_.AvailInput()) {\n        if (!compressor_.EnoughOutput()) {\n          writer_.write(buf_.get(), buf_size_);"),
+    ("C15", "same in flush(): drains with buf_size_", "break", "util/compress.cc",
+     "      do {\n        if (!compressor_.EnoughOutput()) {\n          writer_.write(buf_.get(), compressor_.NextOutput() - reinterpret_cast<const uint8_t*>(buf_.get()));",
+     "      do {\n        if (!compressor_.EnoughOutput()) {\n          writer_.write(buf_.get(), buf_size_);"),
     ("C15", "revert fix: zlib input cursor uninitialised", "break", "util/compress.cc",
      "      stream_.next_in = Z_NULL;\n      stream_.avail_in = 0;\n", ""),
     ("C15", "revert fix: bzip2 stall test", "break", "util/compress.cc",
@@ -79,6 +85,15 @@ M = [
      "      for (std::size_t i = 0; i < workers_.size(); ++i) {\n        in_.Produce(str);", "      for (std::size_t i = 0; i < 1; ++i) {\n        in_.Produce(str);"),
     ("C17", "warc_parallel -z compresses two records into one member", "break", "preprocess/warc_parallel_main.cc",
      "      util::GZCompress(str, compressed);\n", "      static thread_local std::string held;\n      if (held.empty()) { held = str; continue; }\n      held += str;\n      util::GZCompress(held, compressed);\n      held.clear();\n"),
+    ("C17", "warc_parallel emits without holding the mutex", "break", "preprocess/warc_parallel_main.cc",
+     "    while (reader.Read(str)) {\n      std::lock_guard<std::mutex> guard(*out_mutex);\n      *out << str;\n    }\n  }\n}",
+     "    while (reader.Read(str)) {\n      *out << str;\n    }\n  }\n}"),
+    ("C17", "ReadMore treats end of file inside a header as a clean end", "break", "preprocess/warc.cc",
+     "    UTIL_THROW_IF(had, util::EndOfFileException, \"Unexpected end of file inside header\");\n", ""),
+    ("C17", "overhang_ not cleared after the swap", "break", "preprocess/warc.cc",
+     "  std::swap(overhang_, out);\n  overhang_.clear();\n", "  std::swap(overhang_, out);\n"),
+    ("C17", "Content-Length compared case-sensitively", "break", "preprocess/warc.cc",
+     "!strncasecmp(line.data(), kContentLength, kContentLengthLength)", "!strncmp(line.data(), kContentLength, kContentLengthLength)"),
     ("C17", "harmless: <= for < in the overhang test", "harmless", "preprocess/warc.cc",
      "  if (total_length < out.size()) {", "  if (total_length <= out.size()) {"),
     ("C17", "harmless: kRead 4096 -> 1024", "harmless", "preprocess/warc.cc",
